@@ -97,8 +97,8 @@ Proof. reflexivity. Qed.
 
 (* -------- index-equivalent access -------- *)
 
-(* One file: header comment lines followed by record lines (newline terminated, each parsed by the
-   file's parser).  The pointers of iterate_pointer, loaded through byte offsets, give for every key
+(* One file, as BYTES: header comment lines followed by record lines (valid UTF-8, newline terminated,
+   possibly CRLF, each parsed by the file's parser); offsets are byte offsets, text is decoded UTF-8.  The pointers of iterate_pointer, loaded through byte offsets, give for every key
    exactly the records of a linear scan with that transcript id, in the same order; any grouping or
    interleaving of transcript ids. *)
 Theorem index_equiv_one_file : forall C rk ic cs ts,
@@ -124,6 +124,14 @@ Theorem index_equiv : forall C rk qs k,
       (if key_present rec2 qs k then Ok (concat L) else Err EKey).
 Proof. intros C rk. exact (GvfProofs.index_equiv rec2 (parse2 C rk) key2 (parse2_rstrip C rk)). Qed.
 Print Assumptions index_equiv.
+
+(* the text-mode hypothesis inside `good` holds for every LF line and every CRLF line without a stray
+   carriage return (a lone CR is a line break in text mode but not in the binary index: finding C13-loneCR) *)
+Theorem text_mode_lines : forall c, ~ In NL c -> ~ In CR c ->
+  unl (c ++ [NL]) [] = [c ++ [NL]] /\
+  unl ((c ++ [CR]) ++ [NL]) [] = [c ++ [NL]] /\ rstrip ((c ++ [CR]) ++ [NL]) = rstrip (c ++ [NL]).
+Proof. intros c H1 H2. split; [apply unl_plain; auto | split; [apply unl_crlf; auto | apply rstrip_crlf]]. Qed.
+Print Assumptions text_mode_lines.
 
 (* -------- the .idx route and the checksum gate (digest abstract; SHA-512 assumed injective) -------- *)
 
@@ -163,7 +171,7 @@ Definition ex_line (r : varrec) : seq :=
   match to_string gen_cfg r with Ok s => s ++ [NL] | Err _ => [] end.
 Definition ex_t (r : varrec) (tx : seq) : T rec2 :=
   let l := ex_line (ex_with_tx r tx) in
-  (l, match parse2 gen_cfg circ_rkeys false l with Ok x => x | Err _ => inl r end, tx).
+  (l, removelast l, match parse2 gen_cfg circ_rkeys false l with Ok x => x | Err _ => inl r end, tx).
 Definition ex_file : list (T rec2) :=
   [ex_t (nth 0 ex_records (mkVar [] 0 0 [] [] [] [] [])) [84;49];      (* T1 *)
    ex_t (nth 6 ex_records (mkVar [] 0 0 [] [] [] [] [])) [84;50];      (* T2 *)
@@ -171,27 +179,28 @@ Definition ex_file : list (T rec2) :=
 Ltac solve_good :=
   match goal with
   | |- good _ _ _ _ ?t =>
-    exists (removelast (t_line rec2 t));
     split; [vm_compute; reflexivity|];
     split; [vm_compute; let H := fresh "H" in intro H; repeat (destruct H as [H|H]; [discriminate H|]); exact H|];
     split; [vm_compute; discriminate|];
     split; [vm_compute; reflexivity|];
-    split; vm_compute; reflexivity
+    split; [vm_compute; reflexivity|];
+    split; [vm_compute; reflexivity|];
+    eexists; split; [vm_compute; reflexivity|]; split; vm_compute; reflexivity
   end.
 Example index_hypothesis_satisfiable :
   Forall (good_q rec2 (parse2 gen_cfg circ_rkeys) key2)
-         [(false, [[35; 35; 120; 10]; [35; 67; 72; 82; 79; 77; 10]], ex_file,
+         [(false, [[35; 35; 195; 169; 10]; [35; 67; 72; 82; 79; 77; 10]], ex_file,
            match iterate_pointer rec2 (parse2 gen_cfg circ_rkeys) key2 false
-                   (file_lines rec2 [[35; 35; 120; 10]; [35; 67; 72; 82; 79; 77; 10]] ex_file)
+                   (file_lines rec2 [[35; 35; 195; 169; 10]; [35; 67; 72; 82; 79; 77; 10]] ex_file)
            with Ok ps => ps | Err _ => [] end)].
 Proof.
   constructor; [|constructor]. split; [|split].
-  - repeat constructor.
+  - repeat (constructor; [eexists; eexists; split; [vm_compute; reflexivity|]; split; [vm_compute; reflexivity|]; split; vm_compute; reflexivity|]). constructor.
   - unfold ex_file. repeat (constructor; [solve_good|]). constructor.
   - vm_compute. reflexivity.
 Qed.
 Example index_example_has_three_pointers :
   match iterate_pointer rec2 (parse2 gen_cfg circ_rkeys) key2 false
-          (file_lines rec2 [[35; 35; 120; 10]; [35; 67; 72; 82; 79; 77; 10]] ex_file)
+          (file_lines rec2 [[35; 35; 195; 169; 10]; [35; 67; 72; 82; 79; 77; 10]] ex_file)
   with Ok ps => length ps | Err _ => O end = 3%nat.
 Proof. vm_compute. reflexivity. Qed.
